@@ -59,6 +59,7 @@ func TestChild(t *testing.T) {
 	}
 	go stallWatchdog(spec.Flavour)
 	powsim.Flavour = spec.Flavour
+	curlsim.Flavour = spec.Flavour
 	if spec.Replay != "" {
 		b, err := os.ReadFile(spec.Replay)
 		if err != nil {
